@@ -1,10 +1,11 @@
 (* C03 -- Encoder output is always a conformant stream in the requested format.
    Proved here (logic core): the encoder's fragment splitting (Model/EncoderSeq.v, tied to
    encoder/pictures.py by the correspondence run) always satisfies the validator's fragment
-   continuity rule, for EVERY slice grid and EVERY fragment size.  The remaining structure
-   (inserted data units: C19, numbering/offsets: C07, the validator's rules: C01) is composed in
-   Props/C03 as those models land; field validity inside the data units is covered by the
-   differential run only (DESIGN.md section 6). *)
+   continuity rule, for EVERY slice grid and EVERY fragment size; and (C03_structure_partial, at the
+   end of this file, Proofs/IntegEncoder.v) a whole sequence laid out the way the encoder does it
+   satisfies seven of the ten stream-structure rules of the validator model Model/Stream.v (C01),
+   the other three (version: C07, the two ordering patterns: C19) entering as hypotheses.
+   Field validity inside the data units is covered by the differential run only (DESIGN.md section 6). *)
 From Coq Require Import ZArith List Bool.
 From VC2 Require Import Base.PyZ Gen.EncLossless Model.EncoderSeq Proofs.EncoderSeqProofs.
 Import ListNotations.
@@ -37,3 +38,86 @@ Proof. exact lossless_lengths_fit. Qed.
 
 Example C03_example : frag_split 3 2 4 = [mkfrag 4 0 0; mkfrag 2 1 1].
 Proof. vm_compute. reflexivity. Qed.
+
+(* ------------------------------------------------------------------------------------------
+   The structure of a whole sequence against the validator model (integration C03 x C01).
+
+   Layout (Proofs/IntegEncoder.v seq_kinds): a sequence header h; then for each picture of the list ps
+   either ONE picture data unit (fragment_slice_count = 0) or a first fragment followed by the
+   slice-carrying fragments frag_split slices_x slices_y fragment_slice_count (the model of
+   make_fragment_parse_data_units tied by tools/harness/C03.py); picture i carries the number
+   (start + i) mod 2^32; then the end of sequence.  `us` is ANY list of data units with these kinds
+   (any lengths) whose parse offsets satisfy the offsets rule -- C03_autofill_offsets: the offsets
+   autofill computes (previous = length of the previous unit, next = own length, 0 at the end) do.
+   spec_ok: at least one slice each way, fragment_slice_count >= 0.
+
+   DISCHARGED (rule checkers of Model/Stream.v, written independently of the validator):
+     ends_ok, headers_identical, codes_allowed_in_profile (HQ pictures in profile 3, LD in 0),
+     picnums_ok (consecutive mod 2^32; when pictures are fields: start even), whole_frames (fields:
+     an even number of pictures), fragments_ok (from C03_fragments_conformant_partial + C03_fragment_sizes),
+     offsets_ok for autofill's offsets.
+   HYPOTHESES (`_partial`):
+     version_ok          -- major_version is the minimal one supporting what is used.  This is what
+                            C07_major_version_agrees / C07_major_version_least prove for autofill's
+                            version over C07's OWN sequence model (Model/Autofill*.v); that model and
+                            Model/Stream.v's `hdr`/`tparams` abstraction are not connected by a theorem.
+     level_pattern_ok, generic_pattern_ok -- the level's and the generic data-unit ordering patterns match the parse
+                            codes: encoder/sequence.py obtains the sequence from make_matching_sequence,
+                            whose result matches every pattern (C19_sound); the automata here are
+                            abstract (C18 ties the real Matcher), so this is not composed formally.
+     units_valid         -- individually valid data units (13 <= length, known profile/level, positive
+                            slice counts, no extended transform parameters below version 3).
+   CONCLUSION: the seven rules hold and, with the hypotheses, the validator model accepts (C01_iff). *)
+From VC2 Require Import Model.Stream Proofs.StreamRefine Proofs.StreamLift Proofs.IntegEncoder.
+
+Theorem C03_structure_partial :
+  forall (gst : Type) (gstart : gst) (gstep : gst -> symbol -> option gst) (gcomplete : gst -> bool)
+         (lst : Type) (lstart : Z -> lst) (lstep : Z -> lst -> symbol -> option lst) (lcomplete : Z -> lst -> bool)
+         (level_known : Z -> bool),
+  gen_first_is_seqhdr_b gstart gstep = true ->
+  forall (h : hdr) (start : Z) (ps : list pic_spec) (us : list dunit),
+  map u_kind us = seq_kinds h start ps -> Forall spec_ok ps ->
+  (h_pcm h = 1 -> start mod 2 = 0 /\ Z.of_nat (length ps) mod 2 = 0) ->
+  Forall (fun p => h_profile h = if ps_hq p then 3 else 0) ps ->
+  offsets_ok us = true ->
+  version_ok us = true ->
+  level_pattern_ok lst lstart lstep lcomplete us = true -> generic_pattern_ok gst gstart gstep gcomplete us = true ->
+  units_valid level_known us = true ->
+  ends_ok us = true /\ headers_identical us = true /\ codes_allowed_in_profile us = true /\ picnums_ok us = true /\
+  whole_frames us = true /\ fragments_ok us = true /\
+  run gst gstart gstep gcomplete lst lstart lstep lcomplete level_known false us = Accept.
+Proof. exact structure_accepted. Qed.
+
+(* the fragment rule alone, with no hypothesis beyond the layout *)
+Theorem C03_structure_fragments : forall (h : hdr) (start : Z) (ps : list pic_spec) (us : list dunit),
+  map u_kind us = seq_kinds h start ps -> Forall spec_ok ps -> fragments_ok us = true.
+Proof. exact structure_fragments. Qed.
+
+Theorem C03_autofill_offsets : forall h start ps (lens : list Z),
+  length lens = length (seq_kinds h start ps) ->
+  let us := with_offsets 0 (combine (seq_kinds h start ps) lens) in
+  map u_kind us = seq_kinds h start ps /\ offsets_ok us = true.
+Proof. exact autofill_units. Qed.
+
+(* non-vacuity: two HQ pictures -- one whole, one in fragments of 4 slices on a 3x2 grid -- numbered
+   2^32-1, 0 (wrap-around); generic automaton "sequence_header .* end_of_sequence", no level restriction:
+   every hypothesis of C03_structure_partial holds and the validator model accepts *)
+Definition C03_ex_gstep (s : Z) (sym : symbol) : option Z :=
+  if s =? 0 then (match sym with SSeqHdr => Some 1 | _ => None end)
+  else match sym with SEos => Some 2 | _ => Some 1 end.
+Example C03_example_structure :
+  let h := mkHdr 1 3 3 0 0 1 in
+  let ps := [mkPicSpec true (mkTp 4 4 0 3 2) 0; mkPicSpec true (mkTp 4 4 0 3 2) 4] in
+  let ks := seq_kinds h 4294967295 ps in
+  let us := with_offsets 0 (combine ks [20; 100; 30; 60; 40; 13]) in
+  map u_kind us = [KSeqHdr h; KPic true 4294967295 (mkTp 4 4 0 3 2); KFragFirst true 0 (mkTp 4 4 0 3 2);
+                   KFragData true 0 4 0 0; KFragData true 0 2 1 1; KEos] /\
+  Forall spec_ok ps /\ offsets_ok us = true /\ version_ok us = true /\ units_valid (fun _ => true) us = true /\
+  level_pattern_ok unit (fun _ => tt) (fun _ _ _ => Some tt) (fun _ _ => true) us = true /\
+  generic_pattern_ok Z 0 C03_ex_gstep (fun s => s =? 2) us = true /\
+  run Z 0 C03_ex_gstep (fun s => s =? 2) unit (fun _ => tt) (fun _ _ _ => Some tt) (fun _ _ => true) (fun _ => true) false us = Accept.
+Proof.
+  cbv zeta. split; [vm_compute; reflexivity|]. split.
+  { unfold spec_ok. repeat constructor; cbn; try reflexivity; discriminate. }
+  vm_compute. repeat split; reflexivity.
+Qed.
